@@ -385,6 +385,7 @@ func setString(m map[string]bool) string {
 func (c *Ctx) guardedFields(rulePrefix string, fields []*types.Var, lock string, exempt func(f *Func, sel *ast.SelectorExpr) string) int {
 	le := c.lockEnv()
 	n := 0
+	lock = c.relocatedLock(lock, fields)
 	for _, f := range le.all {
 		for _, fld := range fields {
 			for _, sel := range f.FieldRefs(f.Body, fld, false) {
@@ -435,4 +436,70 @@ func (f *Func) baseIsLocalAlloc(sel *ast.SelectorExpr) bool {
 		}
 	}
 	return false
+}
+
+// relocatedLock: a lock class is written "Struct.mutexField". When the guarded fields and the mutex were moved together into
+// a struct of their own (embedded where they used to be), the class is named after the struct that declares them now.
+func (c *Ctx) relocatedLock(lock string, fields []*types.Var) string {
+	i := strings.LastIndex(lock, ".")
+	if i < 0 || len(fields) == 0 {
+		return lock
+	}
+	typ, mu := lock[:i], lock[i+1:]
+	for _, rel := range sdkPkgs {
+		pk := c.P.Pkg(rel)
+		if pk == nil {
+			continue
+		}
+		n := c.P.LookupType(rel, typ)
+		if n == nil {
+			continue
+		}
+		st, ok := n.Underlying().(*types.Struct)
+		if !ok {
+			continue
+		}
+		for j := 0; j < st.NumFields(); j++ {
+			if st.Field(j).Name() == mu {
+				return lock // declared where the rule says
+			}
+		}
+		v := c.P.LookupField(rel, typ, mu)
+		if v == nil {
+			continue
+		}
+		// the struct that declares the mutex also declares the guarded fields
+		sc := pk.Types.Scope()
+		for _, name := range sc.Names() {
+			tn, ok := sc.Lookup(name).(*types.TypeName)
+			if !ok {
+				continue
+			}
+			ost, ok := tn.Type().Underlying().(*types.Struct)
+			if !ok {
+				continue
+			}
+			hasMu, hasAll := false, true
+			for j := 0; j < ost.NumFields(); j++ {
+				if ost.Field(j) == v {
+					hasMu = true
+				}
+			}
+			for _, f := range fields {
+				found := false
+				for j := 0; j < ost.NumFields(); j++ {
+					if ost.Field(j) == f {
+						found = true
+					}
+				}
+				if !found {
+					hasAll = false
+				}
+			}
+			if hasMu && hasAll {
+				return tn.Name() + "." + mu
+			}
+		}
+	}
+	return lock
 }
